@@ -180,10 +180,28 @@ def check(run, prog, tier):
         ss = calls_to(p, cx.m(DISC, "service_offer_stopped").qual)
         if d:
             seen.add(d[0])
+            if not d[0] and not so and not ss:
+                continue  # an Offer nobody watches is ignored (the watch gate; who is told what is F1 / F2)
             ok = (len(ss) == 1 and not so) if d[0] else (len(so) == 1 and not ss)
             run.ob("R1", f"{ho.qual}:{'stop-offer' if d[0] else 'offer'}", ok, loc(ho),
                    f"TTL {'==' if d[0] else '!='} 0 leads to {'service_offer_stopped' if ss else 'service_offered' if so else 'nothing'}")
     run.ob("R1", f"{ho.qual}:ttl-decides", seen == {True, False}, loc(ho), "an Offer with TTL 0 is a StopOffer, any other TTL an Offer")
+    reaches = any(calls_to(p, cx.m(DISC, "service_offered").qual) for p in eng.paths(ho, recv=DISC))
+    run.ob("R1", f"{ho.qual}:offer-reaches-the-store", reaches, loc(ho), "an Offer (TTL != 0) that is watched for is handed to service_offered")
+    # a withdrawal must reach the store whatever else is the case (who is watching right now, ...): the stored offer may
+    # stem from a listener that has left, and the next listener's catch-up would report an offer its source has withdrawn
+    dropped = None
+    for p in eng.paths(ho, recv=DISC):
+        if not p.returns():
+            continue
+        is_stop = [v for c, v in implied_atoms(p.conds) if strip_sites(c) == ("cmp", "==", ("attr", ent, "ttl"), const(0))]
+        if calls_to(p, cx.m(DISC, "service_offer_stopped").qual) or is_stop == [False]:
+            continue
+        dropped = " and ".join(("" if v else "not ") + show(c)[:60] for c, v, _, _ in p.conds) or "always"
+    run.ob("R1", f"{ho.qual}:stop-offer-always-reaches-the-store", dropped is None, loc(ho),
+           "every path that does not withdraw has established TTL != 0" if dropped is None else
+           f"a StopOffer is dropped when {dropped}: the withdrawn offer stays in found_services and a listener that registers "
+           "later is told 'offered' for it")
     for name, callee in (("service_offer_stopped", "stop"), ("service_offered", "refresh")):
         fi = cx.m(DISC, name)
         tgt = cx.m(TS, callee).qual
